@@ -84,13 +84,14 @@ func checkC03(c *Ctx) {
 	// C03.3 Propose: Vote(proposal.Block) only after Verify(proposal) == nil
 	if propose != nil && voterVote != nil && voterVerify != nil {
 		fl := NewFlow(p, propose)
-		sites := callsIn(propose, false, func(cc *ssa.CallCommon) bool { return calleeIs(cc, voterVote) })
+		sites := deepSites(fl, func(cc *ssa.CallCommon) bool { return calleeIs(cc, voterVote) }, 0)
 		if len(sites) == 0 {
 			c.Unresolved("C03.3", "Proposer.Propose", "no Vote call")
 		}
-		for _, s := range sites {
-			facts := fl.At(s)
-			arg := fl.K.Key(s.Common().Args[1])
+		for _, ds := range sites {
+			s := ds.Site
+			facts := ds.Facts
+			arg := ds.Args[1]
 			base := strings.TrimSuffix(arg, kPropBlock)
 			ok := strings.HasSuffix(arg, kPropBlock) && facts.Has(func(f Fact) bool {
 				return f.Op == "==" && f.L != f.R && oneIsNil(f) && strings.Contains(nonNil(f), "(*hs/protocol/consensus.Voter).Verify(") &&
